@@ -171,6 +171,14 @@ def run(ctx):
     d["types"]["Person"].append({"name": "friends", "type": "Person[]"})
     d["types"]["Mail"].append({"name": "re", "type": "Mail[]"})
     add("typeddata/recursive-types", "typeddata", json.dumps(d))
+    # fixed-size array types whose declared size is enormous, with ordinary (short) values
+    for size in ("18446744073709551615", "18446744073709551616", "9223372036854775808", "576460752303423488", "576460752303423487", "288230376151711744",
+                 "4294967296", "4294967295", "2147483648", "1000000000000", "0"):
+        for inner, val in (("uint8", [1, 2]), ("uint8", []), ("Person", []), ("bytes32", ["0x" + "11" * 32])):
+            d = json.loads(json.dumps(TYPED))
+            d["types"]["Mail"].append({"name": "huge", "type": "%s[%s]" % (inner, size)})
+            d["message"]["huge"] = val
+            add("typeddata/enormous-array-size", "typeddata", json.dumps(d))
     # struct types that repeat a member name (primary, nested, in arrays) with values that have the key once, not at all, twice
     for where in ("primary", "nested", "array"):
         for msg_inner in ({"a": 1}, {}, {"a": 1, "b": 2}, {"a": 1, "a2": 1}):
@@ -306,6 +314,10 @@ def run(ctx):
         if n in (10 ** 6, 10 ** 7) or thorough:
             cli("cli/large-input", ["sign", "--mnemonic", phrase, "message", p], timeout=300)
             cli("cli/large-input", ["hex", "encode", p], timeout=300)
+    # inputs named by a path that is not a regular file (a pipe behind /dev/stdin): read like any other input
+    for sub, inp in ((["hash", "data"], b"abc"), (["hash", "message"], b"abc"), (["hex", "encode"], b"abc"), (["hex", "decode"], b"0x616263"),
+                     (["hash", "typeddata"], json.dumps(TYPED).encode()), (["sign", "--mnemonic", phrase, "message"], b"abc")):
+        runs.append(("cli/non-regular-input-path(must succeed)", dict(args=sub + ["/dev/stdin"], stdin=inp, env=None, timeout=60)))
     cli("cli/missing-file", ["hash", "message", os.path.join(tmp, "does-not-exist")])
     cli("cli/bad-mnemonic", ["address", "--mnemonic", "abandon"])
     cli("cli/no-args", [])
@@ -318,6 +330,8 @@ def run(ctx):
             if r.cls in ("panic", "signal", "timeout"):
                 ctx.violation("cli-%s" % r.cls, dict(op="hdwallet " + " ".join(short(a, 80) for a in rn["args"]), build=bname, stdin=short(rn["stdin"] or b"", 60)),
                               "exit 0 or an ordinary error exit with a message", dict(exit=r.cls, rc=r.rc, stderr=r.stderr[-300:].decode("utf8", "replace")))
+            elif "(must succeed)" in cls and r.cls != "ok":
+                ctx.violation("cli-well-formed-input-refused", dict(op="hdwallet " + " ".join(short(a, 80) for a in rn["args"]), build=bname), "exit 0", str(r)[:300])
             elif r.cls == "error" and not r.stderr:
                 ctx.violation("cli-error-without-message", dict(op="hdwallet " + " ".join(short(a, 80) for a in rn["args"]), build=bname), "a message on stderr", "empty stderr")
     for f in os.listdir(tmp):
